@@ -1,0 +1,189 @@
+//go:build verif
+
+// Contracts for /verif (properties C03, C07, C08) over the thin reflect model of
+// /verif/trusted/reflect.spec. Comment-only file: it is never compiled into the package.
+//
+// Reading of C03 over this model: for a value of every scalar kind of the signature grammar the
+// reflection encoder appends exactly the documented little-endian image (1/2/4/8 bytes, one-byte
+// booleans, length-prefixed strings); lists and maps start with their 32-bit element count and
+// then hand their elements (key, value pairs) in order to the same encoder; struct fields are
+// encoded in declaration order. The reflection decoder consumes exactly those widths and stores
+// the decoded number / string into the destination. Round trip per scalar kind follows from the
+// two contracts and the le16/le32/le64 lemmas of package basic.
+package encoding
+
+// Custom/binary codecs of user types are abstract: they may append to any writer / advance any
+// reader, never rewrite what was written, and a decoder failure is sticky (C08).
+//@ interface (b BinaryEncoder) Write(w io.Writer) (err error)
+//@   trusted
+//@   encoder w
+//@ interface (c CustomEncoder) Encode(e Encoder) (err error)
+//@   trusted
+//@   modifies allof(len), allof(writes), allof(data)
+//@   ensures forall ww io.Writer {ww.len} :: ww.len >= old(ww.len)
+//@   ensures forall ww io.Writer, j int {ww.data[j]} :: j < old(ww.len) ==> ww.data[j] == old(ww.data[j])
+
+//@ func (q qiEncoder) value(v reflect.Value) (err error)
+//@   tags C03
+//@   requires q.w != nil
+//@   modifies allof(len), allof(writes), allof(data)
+//@   ensures forall ww io.Writer {ww.len} :: ww.len >= old(ww.len)
+//@   ensures forall ww io.Writer, j int {ww.data[j]} :: j < old(ww.len) ==> ww.data[j] == old(ww.data[j])
+//@   ensures[C03] err == nil && rkind(rbase(v)) == 1 ==> q.w.len == old(q.w.len) + 1 && q.w.data[old(q.w.len)] == (rbase(v).rval != 0 ? 1 : 0)
+//@   ensures[C03] err == nil && rkind(rbase(v)) == 3 ==> q.w.len == old(q.w.len) + 1 && q.w.data[old(q.w.len)] == u8(rbase(v).rval)
+//@   ensures[C03] err == nil && rkind(rbase(v)) == 8 ==> q.w.len == old(q.w.len) + 1 && q.w.data[old(q.w.len)] == rbase(v).rval
+//@   ensures[C03] err == nil && rkind(rbase(v)) == 4 ==> q.w.len == old(q.w.len) + 2 && isle16(q.w.data, old(q.w.len), u16(rbase(v).rval))
+//@   ensures[C03] err == nil && rkind(rbase(v)) == 9 ==> q.w.len == old(q.w.len) + 2 && isle16(q.w.data, old(q.w.len), rbase(v).rval)
+//@   ensures[C03] err == nil && rkind(rbase(v)) == 5 ==> q.w.len == old(q.w.len) + 4 && isle32(q.w.data, old(q.w.len), u32(rbase(v).rval))
+//@   ensures[C03] err == nil && rkind(rbase(v)) == 10 ==> q.w.len == old(q.w.len) + 4 && isle32(q.w.data, old(q.w.len), rbase(v).rval)
+//@   ensures[C03] err == nil && (rkind(rbase(v)) == 6 || rkind(rbase(v)) == 2) ==> q.w.len == old(q.w.len) + 8 && isle64(q.w.data, old(q.w.len), u64(rbase(v).rval))
+//@   ensures[C03] err == nil && (rkind(rbase(v)) == 11 || rkind(rbase(v)) == 7) ==> q.w.len == old(q.w.len) + 8 && isle64(q.w.data, old(q.w.len), rbase(v).rval)
+//@   ensures[C03] err == nil && rkind(rbase(v)) == 13 ==> q.w.len == old(q.w.len) + 4
+//@   ensures[C03] err == nil && rkind(rbase(v)) == 14 ==> q.w.len == old(q.w.len) + 8
+//@   ensures[C03] err == nil && rkind(rbase(v)) == 24 ==> q.w.len == old(q.w.len) + 4 + len(string(rbase(v).rval)) && holdsStr(q.w.data, old(q.w.len), string(rbase(v).rval))
+//@   ensures[C03] err == nil && rkind(rbase(v)) == 23 ==> q.w.len >= old(q.w.len) + 4 && isle32(q.w.data, old(q.w.len), u32(int32(old(rbase(v).rlen))))
+//@   ensures[C03] err == nil && rkind(rbase(v)) == 21 ==> q.w.len >= old(q.w.len) + 4 && isle32(q.w.data, old(q.w.len), u32(int32(old(rbase(v).rlen))))
+//@   loop 1:
+//@     invariant 0 <= i && l == rnfield(old(v)) && rkind(old(v)) == 25
+//@     invariant forall ww io.Writer {ww.len} :: ww.len >= old(ww.len)
+//@     invariant forall ww io.Writer, j int {ww.data[j]} :: j < old(ww.len) ==> ww.data[j] == old(ww.data[j])
+//@   loop 2:
+//@     invariant 0 <= i && l == old(v).rlen && rkind(old(v)) == 23
+//@     invariant q.w.len >= old(q.w.len) + 4 && isle32(q.w.data, old(q.w.len), u32(int32(l)))
+//@     invariant forall ww io.Writer {ww.len} :: ww.len >= old(ww.len)
+//@     invariant forall ww io.Writer, j int {ww.data[j]} :: j < old(ww.len) ==> ww.data[j] == old(ww.data[j])
+//@   loop 3:
+//@     invariant rkind(old(v)) == 21
+//@     invariant q.w.len >= old(q.w.len) + 4 && isle32(q.w.data, old(q.w.len), u32(int32(old(v).rlen)))
+//@     invariant forall ww io.Writer {ww.len} :: ww.len >= old(ww.len)
+//@     invariant forall ww io.Writer, j int {ww.data[j]} :: j < old(ww.len) ==> ww.data[j] == old(ww.data[j])
+//@   call value#2: assert[C03] arg0 == rfield(old(v), i)
+//@   call value#3: assert[C03] arg0 == ridx(old(v), i)
+//@   call value#4: assert[C03] arg0 == k
+//@   call value#5: assert[C03] arg0 == rmapidx(old(v), k)
+
+// ---- decoder ----
+//@ interface (b BinaryDecoder) Read(r io.Reader) (err error)
+//@   trusted
+//@   requires r != nil
+//@   modifies allof(pos), allof(reads), allof(short), allof(rval), allof(rnil)
+//@   ensures forall rr io.Reader {rr.pos} :: rr.pos >= old(rr.pos) && (old(rr.pos) <= rr.len ==> rr.pos <= rr.len)
+//@   ensures forall rr io.Reader {rr.short} :: (rr.short ==> err != nil || old(rr.short)) && (old(rr.short) ==> rr.short)
+//@ interface (c CustomDecoder) Decode(d Decoder) (err error)
+//@   trusted
+//@   modifies allof(pos), allof(reads), allof(short), allof(rval), allof(rnil)
+//@   ensures forall rr io.Reader {rr.pos} :: rr.pos >= old(rr.pos) && (old(rr.pos) <= rr.len ==> rr.pos <= rr.len)
+//@   ensures forall rr io.Reader {rr.short} :: (rr.short ==> err != nil || old(rr.short)) && (old(rr.short) ==> rr.short)
+
+//@ func (q qiDecoder) value(v reflect.Value) (err error)
+//@   tags C03 C07 C08
+//@   requires q.r != nil && 0 <= q.r.pos && q.r.pos <= q.r.len && allocated(rroot(v))
+//@   modifies allof(pos), allof(reads), allof(short), allof(rval), allof(rlen), allof(rcap), allof(rnil)
+//@   ensures forall rr io.Reader {rr.pos} :: rr.pos >= old(rr.pos) && (old(rr.pos) <= rr.len ==> rr.pos <= rr.len)
+//@   ensures[C08] forall rr io.Reader {rr.short} :: (rr.short ==> err != nil || old(rr.short)) && (old(rr.short) ==> rr.short)
+//@   ensures forall t reflect.Value {t.rlen} :: old(allocated(rroot(t))) && !within(t, v) ==> t.rlen == old(t.rlen)
+//@   ensures[C03] err == nil && rkind(rbase(v)) == 1 ==> q.r.pos == old(q.r.pos) + 1 && ((rbase(v).rval != 0) <==> q.r.data[old(q.r.pos)] != 0)
+//@   ensures[C03] err == nil && rkind(rbase(v)) == 3 ==> q.r.pos == old(q.r.pos) + 1 && u8(rbase(v).rval) == q.r.data[old(q.r.pos)]
+//@   ensures[C03] err == nil && rkind(rbase(v)) == 8 ==> q.r.pos == old(q.r.pos) + 1 && rbase(v).rval == q.r.data[old(q.r.pos)]
+//@   ensures[C03] err == nil && rkind(rbase(v)) == 4 ==> q.r.pos == old(q.r.pos) + 2 && u16(rbase(v).rval) == le16(q.r.data, old(q.r.pos))
+//@   ensures[C03] err == nil && rkind(rbase(v)) == 9 ==> q.r.pos == old(q.r.pos) + 2 && rbase(v).rval == le16(q.r.data, old(q.r.pos))
+//@   ensures[C03] err == nil && rkind(rbase(v)) == 5 ==> q.r.pos == old(q.r.pos) + 4 && u32(rbase(v).rval) == le32(q.r.data, old(q.r.pos))
+//@   ensures[C03] err == nil && rkind(rbase(v)) == 10 ==> q.r.pos == old(q.r.pos) + 4 && rbase(v).rval == le32(q.r.data, old(q.r.pos))
+//@   ensures[C03] err == nil && (rkind(rbase(v)) == 6 || rkind(rbase(v)) == 2) ==> q.r.pos == old(q.r.pos) + 8 && u64(rbase(v).rval) == le64(q.r.data, old(q.r.pos))
+//@   ensures[C03] err == nil && (rkind(rbase(v)) == 11 || rkind(rbase(v)) == 7) ==> q.r.pos == old(q.r.pos) + 8 && rbase(v).rval == le64(q.r.data, old(q.r.pos))
+//@   ensures[C03] err == nil && rkind(rbase(v)) == 13 ==> q.r.pos == old(q.r.pos) + 4
+//@   ensures[C03] err == nil && rkind(rbase(v)) == 14 ==> q.r.pos == old(q.r.pos) + 8
+//@   ensures[C03] err == nil && rkind(rbase(v)) == 24 ==> q.r.pos == old(q.r.pos) + 4 + len(string(rbase(v).rval)) && holdsStr(q.r.data, old(q.r.pos), string(rbase(v).rval))
+//@   ensures[C03] err == nil && rkind(rbase(v)) == 23 ==> q.r.pos >= old(q.r.pos) + 4 && 0 <= rbase(v).rlen && u32(int32(rbase(v).rlen)) == le32(q.r.data, old(q.r.pos))
+//@   ensures[C03] err == nil && rkind(rbase(v)) == 21 ==> q.r.pos >= old(q.r.pos) + 4
+//@   loop 1:
+//@     invariant 0 <= i && l == rnfield(old(v)) && rkind(old(v)) == 25 && 0 <= q.r.pos && q.r.pos <= q.r.len
+//@     invariant forall rr io.Reader {rr.pos} :: rr.pos >= old(rr.pos) && (old(rr.pos) <= rr.len ==> rr.pos <= rr.len)
+//@     invariant forall rr io.Reader {rr.short} :: (rr.short ==> old(rr.short)) && (old(rr.short) ==> rr.short)
+//@     invariant forall t reflect.Value {t.rlen} :: old(allocated(rroot(t))) && !within(t, old(v)) ==> t.rlen == old(t.rlen)
+//@   call value#2: assert[C03] arg0 == rfield(old(v), i)
+
+//@ func (q qiDecoder) sliceValue(v reflect.Value) (err error)
+//@   tags C03 C07 C08
+//@   requires q.r != nil && 0 <= q.r.pos && q.r.pos <= q.r.len && allocated(rroot(v)) && rkind(v) == 23
+//@   modifies allof(pos), allof(reads), allof(short), allof(rval), allof(rlen), allof(rcap), allof(rnil)
+//@   ensures forall rr io.Reader {rr.pos} :: rr.pos >= old(rr.pos) && (old(rr.pos) <= rr.len ==> rr.pos <= rr.len)
+//@   ensures[C08] forall rr io.Reader {rr.short} :: (rr.short ==> err != nil || old(rr.short)) && (old(rr.short) ==> rr.short)
+//@   ensures forall t reflect.Value {t.rlen} :: old(allocated(rroot(t))) && !within(t, v) ==> t.rlen == old(t.rlen)
+//@   ensures[C03] err == nil ==> q.r.pos >= old(q.r.pos) + 4 && 0 <= v.rlen && u32(int32(v.rlen)) == le32(q.r.data, old(q.r.pos))
+//@   call MakeSlice#1: assert[C07] arg1 <= 4096
+//@   call MakeSlice#2: assert[C07] arg1 <= 4096
+//@   loop 1:
+//@     invariant 0 <= i && i <= l && v.rlen == l && u32(int32(l)) == le32(q.r.data, old(q.r.pos)) && 0 <= q.r.pos && q.r.pos <= q.r.len && q.r.pos >= old(q.r.pos) + 4
+//@     invariant forall rr io.Reader {rr.pos} :: rr.pos >= old(rr.pos) && (old(rr.pos) <= rr.len ==> rr.pos <= rr.len)
+//@     invariant forall rr io.Reader {rr.short} :: (rr.short ==> old(rr.short)) && (old(rr.short) ==> rr.short)
+//@     invariant forall t reflect.Value {t.rlen} :: old(allocated(rroot(t))) && !within(t, v) ==> t.rlen == old(t.rlen)
+
+//@ func (q qiDecoder) mapValue(v reflect.Value) (err error)
+//@   tags C03 C07 C08
+//@   requires q.r != nil && 0 <= q.r.pos && q.r.pos <= q.r.len && allocated(rroot(v)) && rkind(v) == 21
+//@   modifies allof(pos), allof(reads), allof(short), allof(rval), allof(rlen), allof(rcap), allof(rnil)
+//@   ensures forall rr io.Reader {rr.pos} :: rr.pos >= old(rr.pos) && (old(rr.pos) <= rr.len ==> rr.pos <= rr.len)
+//@   ensures[C08] forall rr io.Reader {rr.short} :: (rr.short ==> err != nil || old(rr.short)) && (old(rr.short) ==> rr.short)
+//@   ensures forall t reflect.Value {t.rlen} :: old(allocated(rroot(t))) && !within(t, v) ==> t.rlen == old(t.rlen)
+//@   ensures[C03] err == nil ==> q.r.pos >= old(q.r.pos) + 4
+//@   call MakeMapWithSize#1: assert[C07] arg1 <= 4096
+//@   call MakeMapWithSize#2: assert[C07] arg1 <= 4096
+//@   loop 1:
+//@     invariant[C07] l <= 4096
+//@     invariant 0 <= i && 0 <= q.r.pos && q.r.pos <= q.r.len && q.r.pos >= old(q.r.pos) + 4
+//@     invariant forall rr io.Reader {rr.pos} :: rr.pos >= old(rr.pos) && (old(rr.pos) <= rr.len ==> rr.pos <= rr.len)
+//@     invariant forall rr io.Reader {rr.short} :: (rr.short ==> old(rr.short)) && (old(rr.short) ==> rr.short)
+//@     invariant forall t reflect.Value {t.rlen} :: old(allocated(rroot(t))) && !within(t, v) ==> t.rlen == old(t.rlen)
+
+//@ func (q qiDecoder) readValue(typ reflect.Type) (v reflect.Value, err error)
+//@   tags C03 C07 C08
+//@   requires q.r != nil && 0 <= q.r.pos && q.r.pos <= q.r.len && typ != nil
+//@   modifies allof(pos), allof(reads), allof(short), allof(rval), allof(rlen), allof(rcap), allof(rnil)
+//@   ensures forall rr io.Reader {rr.pos} :: rr.pos >= old(rr.pos) && (old(rr.pos) <= rr.len ==> rr.pos <= rr.len)
+//@   ensures[C08] forall rr io.Reader {rr.short} :: (rr.short ==> err != nil || old(rr.short)) && (old(rr.short) ==> rr.short)
+//@   ensures forall t reflect.Value {t.rlen} :: old(allocated(rroot(t))) ==> t.rlen == old(t.rlen)
+
+// Top-level entry points: the fast paths for plain Go scalars write / read the same images.
+//@ func (q qiEncoder) Encode(x interface{}) (err error)
+//@   tags C03
+//@   requires q.w != nil
+//@   modifies allof(len), allof(writes), allof(data)
+//@   ensures forall ww io.Writer {ww.len} :: ww.len >= old(ww.len)
+//@   ensures forall ww io.Writer, j int {ww.data[j]} :: j < old(ww.len) ==> ww.data[j] == old(ww.data[j])
+//@   ensures[C03] err == nil && typeis(x, bool) ==> q.w.len == old(q.w.len) + 1 && q.w.data[old(q.w.len)] == (unbox(x, bool) ? 1 : 0)
+//@   ensures[C03] err == nil && typeis(x, int8) ==> q.w.len == old(q.w.len) + 1 && q.w.data[old(q.w.len)] == u8(unbox(x, int8))
+//@   ensures[C03] err == nil && typeis(x, uint8) ==> q.w.len == old(q.w.len) + 1 && q.w.data[old(q.w.len)] == unbox(x, uint8)
+//@   ensures[C03] err == nil && typeis(x, int16) ==> q.w.len == old(q.w.len) + 2 && isle16(q.w.data, old(q.w.len), u16(unbox(x, int16)))
+//@   ensures[C03] err == nil && typeis(x, uint16) ==> q.w.len == old(q.w.len) + 2 && isle16(q.w.data, old(q.w.len), unbox(x, uint16))
+//@   ensures[C03] err == nil && typeis(x, int32) ==> q.w.len == old(q.w.len) + 4 && isle32(q.w.data, old(q.w.len), u32(unbox(x, int32)))
+//@   ensures[C03] err == nil && typeis(x, uint32) ==> q.w.len == old(q.w.len) + 4 && isle32(q.w.data, old(q.w.len), unbox(x, uint32))
+//@   ensures[C03] err == nil && typeis(x, int64) ==> q.w.len == old(q.w.len) + 8 && isle64(q.w.data, old(q.w.len), u64(unbox(x, int64)))
+//@   ensures[C03] err == nil && typeis(x, uint64) ==> q.w.len == old(q.w.len) + 8 && isle64(q.w.data, old(q.w.len), unbox(x, uint64))
+//@   ensures[C03] err == nil && typeis(x, int) ==> q.w.len == old(q.w.len) + 8 && isle64(q.w.data, old(q.w.len), u64(unbox(x, int)))
+//@   ensures[C03] err == nil && typeis(x, uint) ==> q.w.len == old(q.w.len) + 8 && isle64(q.w.data, old(q.w.len), unbox(x, uint))
+//@   ensures[C03] err == nil && typeis(x, float32) ==> q.w.len == old(q.w.len) + 4
+//@   ensures[C03] err == nil && typeis(x, float64) ==> q.w.len == old(q.w.len) + 8
+//@   ensures[C03] err == nil && typeis(x, string) ==> q.w.len == old(q.w.len) + 4 + len(unbox(x, string)) && holdsStr(q.w.data, old(q.w.len), unbox(x, string))
+// (nosafety: a typed nil destination pointer is the caller's error, not an input of the decoder)
+//@ func (q qiDecoder) Decode(x interface{}) (err error)
+//@   tags C03 C08
+//@   nosafety
+//@   requires q.r != nil && 0 <= q.r.pos && q.r.pos <= q.r.len
+//@   modifies everything
+//@   ensures q.r.data == old(q.r.data) && q.r.len == old(q.r.len) && q.r.pos >= old(q.r.pos)
+//@   ensures[C08] (q.r.short ==> err != nil || old(q.r.short)) && (old(q.r.short) ==> q.r.short)
+//@   ensures[C03] err == nil && typeis(x, *bool) ==> q.r.pos == old(q.r.pos) + 1 && ((*unbox(x, *bool)) <==> q.r.data[old(q.r.pos)] != 0)
+//@   ensures[C03] err == nil && typeis(x, *int8) ==> q.r.pos == old(q.r.pos) + 1 && u8(*unbox(x, *int8)) == q.r.data[old(q.r.pos)]
+//@   ensures[C03] err == nil && typeis(x, *uint8) ==> q.r.pos == old(q.r.pos) + 1 && (*unbox(x, *uint8)) == q.r.data[old(q.r.pos)]
+//@   ensures[C03] err == nil && typeis(x, *int16) ==> q.r.pos == old(q.r.pos) + 2 && u16(*unbox(x, *int16)) == le16(q.r.data, old(q.r.pos))
+//@   ensures[C03] err == nil && typeis(x, *uint16) ==> q.r.pos == old(q.r.pos) + 2 && (*unbox(x, *uint16)) == le16(q.r.data, old(q.r.pos))
+//@   ensures[C03] err == nil && typeis(x, *int32) ==> q.r.pos == old(q.r.pos) + 4 && u32(*unbox(x, *int32)) == le32(q.r.data, old(q.r.pos))
+//@   ensures[C03] err == nil && typeis(x, *uint32) ==> q.r.pos == old(q.r.pos) + 4 && (*unbox(x, *uint32)) == le32(q.r.data, old(q.r.pos))
+//@   ensures[C03] err == nil && typeis(x, *int64) ==> q.r.pos == old(q.r.pos) + 8 && u64(*unbox(x, *int64)) == le64(q.r.data, old(q.r.pos))
+//@   ensures[C03] err == nil && typeis(x, *uint64) ==> q.r.pos == old(q.r.pos) + 8 && (*unbox(x, *uint64)) == le64(q.r.data, old(q.r.pos))
+//@   ensures[C03] err == nil && typeis(x, *int) ==> q.r.pos == old(q.r.pos) + 8 && u64(*unbox(x, *int)) == le64(q.r.data, old(q.r.pos))
+//@   ensures[C03] err == nil && typeis(x, *uint) ==> q.r.pos == old(q.r.pos) + 8 && (*unbox(x, *uint)) == le64(q.r.data, old(q.r.pos))
+//@   ensures[C03] err == nil && typeis(x, *float32) ==> q.r.pos == old(q.r.pos) + 4
+//@   ensures[C03] err == nil && typeis(x, *float64) ==> q.r.pos == old(q.r.pos) + 8
+//@   ensures[C03] err == nil && typeis(x, *string) ==> q.r.pos == old(q.r.pos) + 4 + len(*unbox(x, *string)) && holdsStr(q.r.data, old(q.r.pos), *unbox(x, *string))
